@@ -84,7 +84,26 @@ class Model:
         A.require(len(self.plans) == 2, "ElectricField: expected two FFT plans, found %s" % sorted(self.plans))
         for nm in self.OPS:
             self.fns[nm] = prog.fn("vfps::ElectricField::" + nm)
-        self.events = {nm: self._events(self.fns[nm]) for nm in self.OPS}
+        # every other member function (outside construction) that touches a work buffer or runs a plan is an operation too: the
+        # footprint rules quantify over all operations a caller can request, not over the three that exist today
+        self.ops = list(self.OPS)
+        work = {"_bp_padded", "_formfactor", "_wakelosses", "_wakepotential_padded"}
+        setup_sigs = {f_["sig"] for f_ in self.setup}
+        for sig, f_ in sorted(members.items()):
+            if sig in setup_sigs or f_["name"] in self.OPS or f_["name"] in self.fns:
+                continue
+            txt_fields = {A.this_field(y) for y in A.walk(f_["body"]) if y.get("k") == "MemberExpr"} - {None}
+            touches = (txt_fields & work) or any((y.get("callee") or "") == "fft::fft_execute" for y in A.walk(f_["body"]))
+            if not touches:
+                continue
+            writes_or_runs = any((y.get("callee") or "") in ("fft::fft_execute", "std::copy_n", "std::fill_n", "std::copy", "std::fill", "std::transform", "memset", "std::memset", "std::memcpy", "memcpy")
+                                 for y in A.walk(f_["body"])) or \
+                any(A.this_field(A.strip(l_)) in work or any(A.this_field(z) in work for z in A.walk(l_)) for _, l_, _, _ in A.assignments_in(f_["body"]))
+            if not writes_or_runs:
+                continue            # a pure reader (accessor) of a work buffer
+            self.fns[f_["name"]] = f_
+            self.ops.append(f_["name"])
+        self.events = {nm: self._events(self.fns[nm]) for nm in self.ops}
 
     def _events(self, fn):
         s = I.scan(fn)
@@ -140,7 +159,7 @@ class Model:
                 plan = A.this_field(c.arg_nodes[0])
                 A.require(plan is not None, "%s: fft_execute on a non-member plan" % fn["name"])
                 ev.append(Ev("execute", plan, None, None, c.loops, c.guards, c.line, c.node["id"], plan=plan)); ev[-1].seq = c.seq
-            elif cal.startswith("vfps::ElectricField::") and cal.split("::")[-1] in self.OPS:
+            elif cal.startswith("vfps::ElectricField::") and cal.split("::")[-1] in getattr(self, "ops", self.OPS):
                 ev.append(Ev("call", cal.split("::")[-1], None, None, c.loops, c.guards, c.line, c.node["id"])); ev[-1].seq = c.seq
         for a in s.accesses:
             if a.idx is None or not a.base.startswith("_"):
